@@ -282,6 +282,8 @@ class SSH_Socket(ReadBuf, WriteBuf):
                 header.write_byte(padding_length)
                 payload_length = packet_length - padding_length - 1
                 check_size = 4 + 1 + payload_length + padding_length
+            if payload_length < (5 if sshv == 1 else 1):  # Room for the message type (and, for SSH-1, the checksum) is the minimum.
+                raise SSH_Socket.InsufficientReadException('invalid packet length')
             if check_size % self.__block_size != 0:
                 self.__outputbuffer.fail('[exception] invalid ssh packet (block size)').write()
                 sys.exit(exitcodes.CONNECTION_ERROR)
@@ -294,8 +296,6 @@ class SSH_Socket(ReadBuf, WriteBuf):
             else:
                 payload = self.read(payload_length)
                 header.write(payload)
-            if len(payload) == 0:  # There is no message type to read; treat it like any other unreadable packet.
-                raise SSH_Socket.InsufficientReadException('empty packet')
             packet_type = ord(payload[0:1])
             if sshv == 1:
                 rcrc = SSH1.crc32(padding + payload)
